@@ -1753,4 +1753,56 @@ theorem scan_limit_offset_spec (src : ScanSource) (cond : Option (Row → Val)) 
     simp only [capOf, Option.map, takeCap, applyOffset]
     exact slice_limit_offset (some n) offset _
 
+
+/-! ## join()'s shared rows list / aggregate()'s widening: aliasing -/
+/-- all tables of the context hold the same, valid list object -/
+def Heap.Shared (h : Heap) : Prop := ∃ a, a < h.cells.length ∧ ∀ v, v < h.views.length → h.addr v = a
+
+theorem ofJoin_shared (rows : List Row) (n : Nat) : (Heap.ofJoin rows n).Shared := by
+  refine ⟨0, by simp [Heap.ofJoin], ?_⟩
+  intro v hv
+  simp only [Heap.ofJoin, List.length_replicate] at hv
+  simp [Heap.addr, Heap.ofJoin, List.getD, List.getElem?_replicate, hv]
+
+theorem ofJoin_read (rows : List Row) (n v : Nat) (hv : v < n) : (Heap.ofJoin rows n).read v = rows := by
+  simp [Heap.read, Heap.addr, Heap.ofJoin, List.getD, List.getElem?_replicate, hv]
+
+theorem set_shared_read (h : Heap) (hs : h.Shared) (hne : 0 < h.views.length) (new : List Row) (v : Nat)
+    (hv : v < h.views.length) :
+    (⟨h.cells.set (h.addr 0) new, h.views⟩ : Heap).read v = new
+    ∧ (⟨h.cells.set (h.addr 0) new, h.views⟩ : Heap).Shared := by
+  obtain ⟨a, ha, hall⟩ := hs
+  have h0 : h.addr 0 = a := hall 0 hne
+  have hva : h.addr v = a := hall v hv
+  constructor
+  · show (h.cells.set (h.addr 0) new).getD (h.views.getD v 0) [] = new
+    have : h.views.getD v 0 = a := hva
+    rw [this, h0]
+    simp [List.getD, List.getElem?_set_self ha]
+  · exact ⟨a, by simpa using ha, fun w hw => hall w hw⟩
+
+/-- in-place widening (subscript stores) keeps every table of the join on the same rows: all readers see the widened rows -/
+theorem widen_in_place_keeps_views (h : Heap) (hs : h.Shared) (hne : 0 < h.views.length) (ops : List Row) (v : Nat)
+    (hv : v < h.views.length) :
+    (h.widen .subscriptStore ops).read v = widened (h.read 0) ops ∧ (h.widen .subscriptStore ops).Shared :=
+  set_shared_read h hs hne _ v hv
+
+theorem sort_in_place_keeps_views (h : Heap) (hs : h.Shared) (hne : 0 < h.views.length) (keyOf : Row → Key) (v : Nat)
+    (hv : v < h.views.length) :
+    (h.sortInPlace keyOf).read v = sortByGroupKey keyOf (h.read 0) ∧ (h.sortInPlace keyOf).Shared :=
+  set_shared_read h hs hne _ v hv
+
+/-- aggregate() over a join, with computed operands: after the in-place widening and the in-place group-key sort, EVERY
+    joined table's readers see the same list: the widened rows, sorted (so group keys of any table pair with the right
+    operand values) -/
+theorem aggregate_views_consistent (rows ops : List Row) (n : Nat) (keyOf : Row → Key) (v : Nat) (hv : v < n) (hn : 0 < n) :
+    (((Heap.ofJoin rows n).widen .subscriptStore ops).sortInPlace keyOf).read v
+      = sortByGroupKey keyOf (widened rows ops) := by
+  have hs0 := ofJoin_shared rows n
+  have hl : (Heap.ofJoin rows n).views.length = n := by simp [Heap.ofJoin]
+  have w0 := widen_in_place_keeps_views (Heap.ofJoin rows n) hs0 (by omega) ops 0 (by omega)
+  have hlw : ((Heap.ofJoin rows n).widen .subscriptStore ops).views.length = n := by simp [Heap.widen, Heap.ofJoin]
+  have s := sort_in_place_keeps_views _ w0.2 (by omega) keyOf v (by omega)
+  rw [s.1, w0.1, ofJoin_read rows n 0 hn]
+
 end SqlglotModel.Exec
